@@ -70,6 +70,9 @@ FORMS = {
     "E*": ("%s*", "star"), "E+": ("%s+", "plus"), "(E*)*": ("(%s*)*", "star"), "(E+)*": ("(%s+)*", "star"),
     "(E*)+": ("(%s*)+", "star"), "((E*)*)*": ("((%s*)*)*", "star"), "(E+)+": ("(%s+)+", "plus"),
     "E**": ("%s**", "star"), "E+*": ("%s+*", "star"), "E*+": ("%s*+", "star"), "E++": ("%s++", "plus"),
+    # `?` among the suffixes: X? is (X,), so the start stack is yielded once more (multisets)
+    "E+?": ("%s+?", "plus+id"), "E*?": ("%s*?", "star+id"), "E?*": ("%s?*", "star"), "E?+": ("%s?+", "star"),
+    "E??": ("%s??", "once+id+id"), "(E+)?": ("(%s+)?", "plus+id"), "E+?*": ("%s+?*", "star"), "E*+?": ("%s*+?", "star+id"),
 }
 STREAMS = [(0, 1, 2), (2, 2, 1), (0, 0), (1,)]
 
@@ -77,6 +80,12 @@ STREAMS = [(0, 1, 2), (2, 2, 1), (0, 0), (1,)]
 def expected(g, n, kind, start):
     if kind == "star":
         return reach(g, [start])
+    if kind == "star+id":
+        return reach(g, [start]) + [start]
+    if kind == "plus+id":
+        return reach(g, list(g[start])) + [start]
+    if kind == "once+id+id":
+        return list(g[start]) + [start, start]
     return reach(g, list(g[start]))
 
 
